@@ -142,6 +142,8 @@ pub struct IoStats {
     pub bytes: u64,
     pub fired: Vec<&'static str>,
     pub max_pos: u64,
+    /// lowest offset any read call started at (None: nothing read)
+    pub min_read_pos: Option<u64>,
     /// an Interrupted answered while the position was behind the maximum reached (i.e. after a seek back)
     pub eintr_after_seek_back: u64,
 }
@@ -220,6 +222,12 @@ impl SimReader {
     }
     pub fn position(&self) -> u64 {
         self.pos
+    }
+    /// Places the stream at `pos` without an event: the caller has consumed what lies before (an earlier record of the
+    /// same stream). `stats.min_read_pos` then tells whether anything before it was read.
+    pub fn start_at(&mut self, pos: u64) {
+        self.pos = pos;
+        self.stats.min_read_pos = None;
     }
     fn burn(&mut self) -> io::Result<()> {
         self.stats.calls += 1;
@@ -316,6 +324,7 @@ impl Read for SimReader {
             return Ok(0);
         }
         buf[..k].copy_from_slice(&self.data[p..p + k]);
+        self.stats.min_read_pos = Some(self.stats.min_read_pos.map_or(self.pos, |m| m.min(self.pos)));
         self.pos += k as u64;
         self.stats.bytes += k as u64;
         self.stats.max_pos = self.stats.max_pos.max(self.pos);
@@ -512,6 +521,22 @@ impl Write for SimWriter {
         self.stats.bytes += k as u64;
         self.log.u64(k as u64);
         Ok(k)
+    }
+    /// A sink with a real gather write: the slices count as one run of bytes, and the number accepted (drawn like for
+    /// `write`: chunk ceiling, short transfers, room left) may end inside any of them - what `writev` on a pipe, a
+    /// socket or a nearly full disk does (missed seeded change C02-11: the tail behind a partly taken slice dropped).
+    fn write_vectored(&mut self, bufs: &[io::IoSlice<'_>]) -> io::Result<usize> {
+        let nonempty = bufs.iter().filter(|b| !b.is_empty()).count();
+        if nonempty <= 1 {
+            return self.write(bufs.iter().find(|b| !b.is_empty()).map(|b| &**b).unwrap_or(&[]));
+        }
+        let mut all = Vec::with_capacity(bufs.iter().map(|b| b.len()).sum());
+        for b in bufs {
+            all.extend_from_slice(b);
+        }
+        self.log.u64(0x5EC7);
+        self.log.u64(nonempty as u64);
+        self.write(&all)
     }
     fn flush(&mut self) -> io::Result<()> {
         self.stats.calls += 1;
